@@ -856,7 +856,7 @@ func cmdCheck(args []string) int {
 	// triage candidates
 	sort.Strings(candOrder)
 	exit := 0
-	var violLines, knownLines []string
+	var violLines, knownLines, notReproduced []string
 	reported := 0
 	for _, k := range candOrder {
 		c := cands[k]
@@ -922,7 +922,11 @@ func cmdCheck(args []string) int {
 			}
 		}
 		if cerr != nil {
-			fatal2("finding oracle=%s key=%s (run %d) did not reproduce from its tape in a fresh process: %v\n%s", c.v.Oracle, c.v.Key, c.run, cerr, c.v.Detail)
+			// not reproducible from its tape: machinery trouble (exit 2) - unless another finding of this
+			// batch does reproduce (the tree then is nondeterministic AND violates the property: the
+			// reproducible finding is what gets reported)
+			notReproduced = append(notReproduced, fmt.Sprintf("finding oracle=%s key=%s (run %d) did not reproduce from its tape in a fresh process: %v\n%s", c.v.Oracle, c.v.Key, c.run, cerr, c.v.Detail))
+			continue
 		}
 		reported++
 		exit = 1
@@ -932,6 +936,12 @@ func cmdCheck(args []string) int {
 		if rep.Sample != "" {
 			violLines = append(violLines, "  case: "+strings.ReplaceAll(sim.Clip(rep.Sample, 1500), "\n", "\n  "))
 		}
+	}
+	if len(notReproduced) > 0 && reported == 0 && len(orderFindings) == 0 {
+		fatal2("%s", notReproduced[0])
+	}
+	for _, nr := range notReproduced {
+		fmt.Printf("simdriver: %s\n", strings.SplitN(nr, "\n", 2)[0])
 	}
 	for i, rep := range orderFindings {
 		reported++
